@@ -85,5 +85,45 @@ def main():
     print({t: len(v) for t, v in found.items()}, "->", path)
 
 
+def mine_code_targets():
+    """Appends (idempotently) exchanges selected by properties of the *setup code* alone: the inner credentials hash H(I ':' P) starts
+    with 0x00 ('HIP'), with two zero bytes ('HIP00'), or x = H(s | H(I ':' P)) starts with 0x00 ('x')."""
+    path = os.path.join(os.path.dirname(__file__), "srp_corpus.json")
+    with open(path) as f:
+        corpus = json.load(f)
+    corpus = [c for c in corpus if c["target"] not in ("HIP", "HIP00", "x")]
+    want = {"HIP": 3, "HIP00": 1, "x": 2}
+    n = 0
+    for i in range(10**8):
+        code = f"{i:08d}"
+        code = f"{code[:3]}-{code[3:5]}-{code[5:]}"
+        h = G.H(f"{USER}:{code}".encode())
+        salt = det_bytes("mine", f"ship{i}", 16)
+        t = None
+        if h[:2] == b"\0\0" and want["HIP00"]:
+            t = "HIP00"
+        elif h[0] == 0 and want["HIP"]:
+            t = "HIP"
+        elif G.H(salt, h)[0] == 0 and want["x"]:
+            t = "x"
+        if t:
+            want[t] -= 1
+            a = int.from_bytes(det_bytes("mine", f"a{t}{i}", 16), "big")
+            b = int.from_bytes(det_bytes("mine", f"b{t}{i}", 32), "big")
+            corpus.append({"target": t, "code": code, "salt": salt.hex(), "a": hex(a), "b": hex(b)})
+            n += 1
+        if not any(want.values()):
+            break
+    with open(path, "w") as f:
+        json.dump(corpus, f, indent=1)
+    print("added", n, "code-selected exchanges")
+
+
 if __name__ == "__main__":
-    main()
+    import sys
+
+    if "--codes" in sys.argv:
+        mine_code_targets()
+    else:
+        main()
+        mine_code_targets()
